@@ -40,6 +40,7 @@ type RunSpec struct {
 	PruneIf       bool              `json:"prune_branches"`
 	ExecBudgetS   int               `json:"exec_budget_s"`
 	Shares        bool              `json:"share_abstraction"`
+	NoStubs       []string          `json:"no_stubs"` // spec-level stubs that are switched off for this run
 	MaxIters      int               `json:"max_iters"`
 	Replay        string            `json:"replay"`        // "interpreter": confirm models by concrete re-execution in the executor (harnesses whose stubs have no native counterpart)
 	UnwindPolicy  string            `json:"unwind_policy"` // "obligation:<id>": a loop that can exceed the bound is a violation (non-termination)
@@ -448,7 +449,7 @@ func runInstance(ld *sym.Loaded, spec *Spec, rs *RunSpec, args []int64, known ma
 	if spec.MaxSymLen > 0 {
 		e.MaxSymLen = spec.MaxSymLen
 	}
-	installStubs(e, spec)
+	installStubs(e, spec, rs.NoStubs)
 	if rs.Unwind > 0 {
 		e.Unwind = rs.Unwind
 	}
@@ -760,11 +761,14 @@ func knownWitness(prop, obl, harness string, args []int) string {
 	return ""
 }
 
-func installStubs(e *sym.Exec, spec *Spec) {
+func installStubs(e *sym.Exec, spec *Spec, off []string) {
 	if len(spec.Stubs) > 0 {
 		stubsCopy := spec.Stubs
 		e.SetUserStub(func(ex *sym.Exec, st *sym.State, fn *ssa.Function, args []sym.Val, where string) (sym.Val, bool) {
 			for _, sp := range stubsCopy {
+				if contains(off, sp.Func) {
+					continue
+				}
 				if (fn.Name() == sp.Func && (fn.Pkg == ex.Pkg || fn.Pkg == nil)) || (strings.Contains(sp.Func, ".") && fn.String() == sp.Func) {
 					if sp.Log {
 						ex.LogCall(st, fn, args)
@@ -809,7 +813,7 @@ func interpReplay(ld *sym.Loaded, spec *Spec, rs *RunSpec, args []int64, vals ma
 	if rs.Unwind > 0 {
 		e.Unwind = rs.Unwind
 	}
-	installStubs(e, spec)
+	installStubs(e, spec, rs.NoStubs)
 	func() {
 		defer func() {
 			if r := recover(); r != nil {
